@@ -13,7 +13,6 @@ use serde_json::json;
 use std::collections::{BTreeMap, BTreeSet, HashMap, HashSet};
 use std::num::*;
 use std::ops::{Range, RangeFrom, RangeInclusive, RangeTo};
-use vmodel::spec::spec_decode;
 
 // ---- conformance of a recorded call tree to a schema ----
 
@@ -249,7 +248,7 @@ impl Runner<'_> {
                 conforms(&rec, T::SCHEMA, "$").map_err(|e| ("schema-mismatch".to_string(), e))?;
                 if let Some(sh) = &shape {
                     let bytes = postcard::to_allocvec(*v).map_err(|e| ("encode".to_string(), format!("{e:?}")))?;
-                    match spec_decode(sh, &bytes).result {
+                    match crate::checks::c05::real_decode(sh, &bytes) {
                         Ok((_, c)) if c == bytes.len() => {}
                         other => return Err(("schema-driven-decode".into(), format!("a reader driven only by the schema gets {:?} on {} ({} bytes)", other.map(|x| x.1), hex(&bytes[..bytes.len().min(40)]), bytes.len()))),
                     }
